@@ -50,6 +50,7 @@ USERS = [
 ]
 CREDS = {
     "v1:c1": lambda: V1("c1"),
+    "v1:c2": lambda: V1("c2"),  # the SAME community string as v2c:c2
     "v2c:c2": lambda: V2C("c2"),
     "v2c:c3": lambda: V2C("c3"),
     "v3:u1": lambda: V3("u1"),
